@@ -6,12 +6,16 @@ pub mod c02;
 pub mod c03;
 pub mod c04;
 pub mod c05;
+pub mod c06;
+pub mod c07;
 pub mod c12;
 pub mod c13;
 pub mod c14;
 pub mod c15;
 pub mod c16;
 pub mod c17;
+pub mod c18;
+pub mod c19;
 pub mod hard;
 pub mod mc;
 
@@ -22,12 +26,16 @@ pub fn run(ctx: &Ctx, prop: &str) -> bool {
         "C03" => c03::run(ctx),
         "C04" => c04::run(ctx),
         "C05" => c05::run(ctx),
+        "C06" => c06::run(ctx),
+        "C07" => c07::run(ctx),
         "C12" => c12::run(ctx),
         "C13" => c13::run(ctx),
         "C14" => c14::run(ctx),
         "C15" => c15::run(ctx),
         "C16" => c16::run(ctx),
         "C17" => c17::run(ctx),
+        "C18" => c18::run(ctx),
+        "C19" => c19::run(ctx),
         _ => return false,
     }
     true
@@ -40,12 +48,16 @@ pub fn replay(ctx: &Ctx, prop: &str, kind: &str, case: &Value) -> bool {
         "C03" => c03::replay(ctx, case),
         "C04" => c04::replay(ctx, case),
         "C05" => c05::replay(ctx, case),
+        "C06" => c06::replay(ctx, case),
+        "C07" => c07::replay(ctx, case),
         "C12" => c12::replay(ctx, case),
         "C13" => c13::replay(ctx, kind, case),
         "C14" => c14::replay(ctx, case),
         "C15" => c15::replay(ctx, case),
         "C16" => c16::replay(ctx, case),
         "C17" => c17::replay(ctx, kind, case),
+        "C18" => c18::replay(ctx, case),
+        "C19" => c19::replay(ctx, case),
         _ => return false,
     }
     true
